@@ -142,6 +142,52 @@ class RecordedBackend:
         return []
 
 
+class ServiceBackend:
+    """A remote device reduced to what a forwarding UCMM needs of it: Register Session is answered with a handle, a SendRRData
+    request by the recorded reply for its CIP service code -- carrying the request's own session handle and sender context."""
+
+    def __init__(self, register_reply, by_service):
+        self.register_reply = bytes(register_reply)
+        self.by_service = dict(by_service)           # CIP service code -> recorded SendRRData reply frame
+        self.buf = bytearray()
+        self.finished = False
+        self.requests = []
+
+    def feed(self, chunk):
+        if self.finished:
+            return []
+        self.buf += chunk
+        out = []
+        while len(self.buf) >= 24:
+            ln = struct.unpack_from("<H", self.buf, 2)[0]
+            if len(self.buf) < 24 + ln:
+                break
+            fr = bytes(self.buf[:24 + ln])
+            del self.buf[:24 + ln]
+            self.requests.append(fr)
+            cmd = struct.unpack_from("<H", fr, 0)[0]
+            if cmd == 0x65:
+                out.append(self.register_reply[:12] + fr[12:20] + self.register_reply[20:])
+            elif cmd == 0x6F:
+                # interface(4) timeout(2) count(2) item0 type/len(4) item1 type(2) len(2) -> CIP request at offset 24+16
+                svc = fr[40] if len(fr) > 40 else None
+                if svc == 0x52 and len(fr) > 50:       # Unconnected Send wrapper around the request
+                    svc = fr[50]
+                rp = self.by_service.get(svc)
+                if rp is None:
+                    self.finished = True
+                    break
+                out.append(rp[:4] + fr[4:8] + rp[8:12] + fr[12:20] + rp[20:])
+            else:
+                self.finished = True
+                break
+        return out
+
+    def eof(self):
+        self.finished = True
+        return []
+
+
 # --------------------------------------------------------------------------------------------------
 class FakeSock:
     def __init__(self, env, ordinal, addr, plan, backend):
@@ -382,7 +428,8 @@ class Env:
             backend = LiveBackend(self.sim, peer)
         else:
             k = len(self.socks)
-            backend = RecordedBackend(self.recorded[k] if k < len(self.recorded) else self.recorded[-1])
+            item = self.recorded[k] if k < len(self.recorded) else self.recorded[-1]
+            backend = item() if callable(item) else RecordedBackend(item)      # a factory of content-aware backends, or a script
         s = FakeSock(self, len(self.socks), address, plan, backend)
         self.socks.append(s)
         self.by_fd[s.fd] = s
